@@ -1,6 +1,6 @@
 """C17 — LRU caches (list/map coupling, end roles, throw guards, stored value) and
 SplayTree (owner not dangling, null contradiction, root write-back, link overwrite,
-allocation pairing, search orientation).
+allocation pairing, search orientation, key-equality decision after a splay).
 
 Verdict policy of this file: a violation is reported only with positive evidence - a path (valuation of the atoms) on which the
 recognised effects contradict the rule, in a closed world where every operation on the guarded state (list_/map_, root_, size_,
@@ -2102,7 +2102,7 @@ def check_alloc_erase(ck, fn, tag):
                 if ref_of(l) == o and is_null(r):
                     return ("non-null", b[0] == "==")
         return None
-    leaves = dtable.explore(ret_as_if(fn.body), opaque_atomize(special), fn)
+    leaves = dtable.explore(bool_ret_as_if(fn.body), opaque_atomize(special), fn)
     bad = None
     judged = 0
     for lf in leaves:
@@ -2133,6 +2133,12 @@ def check_alloc_erase(ck, fn, tag):
             why = "frees the result of splay_erase where it %s" % ("is null" if nn is False else "was not tested (null when the key is absent)")
         elif frees == 0 and nn is not False:
             why = "does not free the unlinked node where it %s" % ("is non-null" if nn else "was not tested")
+        else:
+            # the value returned tells whether a node was removed
+            stp = lf["stop"]
+            rv = const_int(stp[1][0]) if stp[0] == "return" and stp[1] and stp[1][0] is not None else None
+            if rv is not None and bool(rv) != (frees == 1):
+                why = "returns %s although %s" % ("true" if rv else "false", "a node was removed and freed" if frees else "no node was removed")
         if why and any(k_ != "non-null" for k_ in lf["val"]):
             raise dtable.Undecidable("%s: SPLAY-ALLOC-PAIR: erase() %s, under conditions that are not understood (%s)" % (fn.loc, why, dtable.fmt_val(lf["val"])))
         if why and bad is None:
@@ -2145,6 +2151,453 @@ def check_alloc_erase(ck, fn, tag):
     else:
         ck.violation("SPLAY-ALLOC-PAIR", fn.qname, "erase", "the node returned by splay_erase is not freed exactly when it is non-null (path %s: %s)"
                      % (dtable.fmt_val(bad[0]) or "-", bad[1]), fn.loc)
+
+
+def bool_ret_as_if(s):
+    """statement tree in which `return <bool expr>;` reads `if (<expr>) return true; else return false;`: the decision table
+    evaluates the returned condition and the leaf tells which value is returned (expression nodes are shared, not copied)"""
+    if s is None:
+        return None
+    k = s["k"]
+    if k == "ReturnStmt" and kids(s) and kids(s)[0] is not None and (kids(s)[0].get("ty") or "").replace("const ", "") == "bool" \
+            and const_int(kids(s)[0]) is None:
+        def lit(b, off):
+            return {"k": "ReturnStmt", "id": -s["id"] - off, "l": s.get("l"),
+                    "ch": [{"k": "CXXBoolLiteralExpr", "id": -s["id"] - off - 2, "val": b, "ty": "bool", "l": s.get("l")}]}
+        return {"k": "IfStmt", "id": -s["id"] - 1, "l": s.get("l"), "ch": [kids(s)[0], lit(True, 5), lit(False, 6)]}
+    if k in ("CompoundStmt", "LabelStmt"):
+        out = dict(s)
+        out["ch"] = [bool_ret_as_if(c) for c in kids(s)]
+        return out
+    if k == "IfStmt":
+        out = dict(s)
+        out["ch"] = [kids(s)[0]] + [bool_ret_as_if(c) for c in kids(s)[1:]]
+        if isinstance(s.get("condvar"), dict):
+            del out["condvar"]
+            decl = {"k": "DeclStmt", "id": -s["id"] - 2, "l": s.get("l"), "ch": [s["condvar"]]}
+            return {"k": "CompoundStmt", "id": -s["id"] - 3, "l": s.get("l"), "ch": [decl, out]}
+        return out
+    return s
+
+
+def found_table(fn, rootname, bool_fn):
+    """Decision table of a function that splays its root for a key and then decides whether the key is there.
+
+    The paths of the function are evaluated over the atoms
+        empty      the tree is empty (a null test of the root before or after the splay: splay() returns null exactly for a null tree)
+        k<root     cmp(key, root->key)  with root = the node splay(key, root, cmp) returned
+        root<k     cmp(root->key, key)
+        null:R.x   the root's left / right link is null (free: both values occur in every row)
+        c:...      every other condition (opaque)
+    while the pointer values of the root designator and of the locals are followed symbolically (T0 the root on entry, R the
+    splay() result, R.left / R.right its links on return from splay, S(R.left) the result of splaying the left subtree for the
+    same key, new a fresh node, ins(..) a splay_insert result, null, ?n anything else).  A write or a call that can change
+    the root designator in a way that is not one of these raises Undecidable.
+    -> (leaves, key expression); each leaf gets lf["fs"] = the state at its end and lf["ret"] = the value returned (pointer value
+    or bool)"""
+    def und(what):
+        raise dtable.Undecidable("%s: SPLAY-FOUND: %s" % (fn.loc, what))
+
+    src = with_siblings_inlined(fn)       # find() / erase(key) used by a sibling read like their bodies
+    key = cmpx = None
+    for y in ir.walk(src):
+        if "callee" in y and y["k"] == "CallExpr" and match.call_named(y, ("splay",)) is not None and len(kids(y)) >= 3 \
+                and is_root(kids(y)[1], fn) == rootname:
+            if key is not None and not (match.same_expr(key, kids(y)[0]) and match.same_expr(cmpx, kids(y)[2])):
+                und("the root is splayed for different keys (line %s)" % y.get("l"))
+            key, cmpx = kids(y)[0], kids(y)[2]
+    if key is None:
+        und("no splay(key, %s, cmp) call in %s()" % (rootname.split(":")[-1], fn.name))
+    key_vars = {z["ref"]["id"] for z in ir.walk(key) if z["k"] == "DeclRefExpr"}
+    for y in ir.walk(src):
+        for lv in written_lvalues(y):
+            if normalize.lvalue_root(lv) in key_vars:
+                und("the search key is written (line %s)" % y.get("l"))
+        if y["k"] == "LambdaExpr":
+            und("a lambda (line %s)" % y.get("l"))
+    escaped = set()         # pointer locals whose address is taken: what they hold is not followed
+    for y in ir.walk(src):
+        if y["k"] == "UnaryOperator" and y.get("op") == "&" and kids(y):
+            a = strip_casts(kids(y)[0])
+            if a is not None and is_root(a, fn) == rootname:
+                und("the address of %s is taken (line %s)" % (rootname.split(":")[-1], y.get("l")))
+            if a is not None and a["k"] == "DeclRefExpr":
+                escaped.add(a["ref"]["id"])
+
+    class St:
+        def __init__(self):
+            self.root, self.env, self.store, self.dirty, self.n, self.done, self.splayed = "T0", {}, {}, False, 0, 0, False
+
+    def st(run):
+        if not hasattr(run, "fst"):
+            run.fst = St()
+        return run.fst
+
+    def fresh(s):
+        s.n += 1
+        return "?%d" % s.n
+
+    def is_ptr(e):
+        return "*" in ((e or {}).get("ty") or "")
+
+    def clobber(s, lv, v=None, base=None):
+        """the lvalue lv receives v (anything if None); base: the node whose link lv is, when that was determined earlier"""
+        lv = strip_casts(lv)
+        if lv is None:
+            return
+        v = v if v is not None else fresh(s)
+        if is_root(lv, fn) == rootname:
+            s.root = v
+        elif lv["k"] == "DeclRefExpr":
+            s.env[lv["ref"]["id"]] = v
+        elif lv["k"] == "MemberExpr" and lv.get("member") in ("left", "right") and kids(lv):
+            b = base if base is not None else value(s, kids(lv)[0]) if lv.get("arrow") else fresh(s)
+            if b == "R":
+                s.store[("R", lv["member"])] = v
+            elif b.startswith("?"):
+                s.dirty = True
+        elif lv["k"] == "MemberExpr" and lv.get("member") == "root_":
+            und("a store to %s is not understood (line %s)" % (dtable.describe(lv), lv.get("l")))
+        elif lv["k"] == "ConditionalOperator" and len(kids(lv)) == 3:
+            for alt in kids(lv)[1:]:        # one of the two places is written
+                clobber(s, alt)
+        elif is_ptr(lv):
+            # a store through a pointer to a pointer (*p, p[i]): the root designator and the locals are not reachable that way
+            # (their address is not taken, checked on entry); a link of the old root may be
+            s.dirty = True
+
+    def call_effects(s, y):
+        callee = fn.tu.by_did.get(y["callee"].get("did"))
+        functor = match.functor_call(y) is not None
+        args = kids(y)[(1 if y.get("member_call") or functor else 0):]
+        for i, a in enumerate(args):
+            a0 = strip_casts(a)
+            by_addr = a0 is not None and a0["k"] == "UnaryOperator" and a0.get("op") == "&" and kids(a0)
+            if by_addr:
+                a0 = strip_casts(kids(a0)[0])
+            if a0 is None or not (is_root(a0, fn) == rootname or (a0["k"] == "DeclRefExpr" and is_ptr(a0))):
+                continue
+            pty = (callee.params[i]["ty"] if callee is not None and (functor or y["k"] != "CXXOperatorCallExpr") and i < len(callee.params) else "?").replace(" ", "")
+            if not by_addr and pty != "?" and (not pty.endswith("&") or pty.endswith("const&") or pty.endswith("&&")):
+                continue        # taken by value or read-only
+            if is_root(a0, fn) == rootname:
+                und("%s is handed to %s() by %s: what it holds afterwards is not understood (line %s)"
+                    % (rootname.split(":")[-1], y["callee"]["name"], "address" if by_addr else "reference", y.get("l")))
+            clobber(s, a0)
+        if rootname == "root_" and is_sibling_call(y) and not y["callee"].get("const"):
+            s.root = fresh(s)
+
+    def scan(s, e):
+        """effects of an expression whose value is not followed"""
+        for y in ir.walk(e):
+            for lv in written_lvalues(y):
+                clobber(s, lv)
+            if "callee" in y and y["k"] not in ("CXXConstructExpr", "CXXTemporaryObjectExpr"):
+                call_effects(s, y)
+
+    def value(s, e):
+        """pointer value of e; evaluates e (its stores and calls take effect)"""
+        e = strip_casts(e)
+        if e is None:
+            return fresh(s)
+        if is_null(e):
+            return "null"
+        if is_root(e, fn) == rootname:
+            return s.root
+        if e["k"] == "DeclRefExpr":
+            d = e["ref"]["id"]
+            if d not in s.env or d in escaped:
+                s.env[d] = fresh(s)
+            return s.env[d]
+        if e["k"] == "BinaryOperator" and e.get("op") == "=":
+            v = value(s, kids(e)[1])
+            clobber(s, kids(e)[0], v)
+            return v
+        if e["k"] == "CXXNewExpr":
+            scan(s, e)
+            return "new"
+        if e["k"] == "CallExpr" and match.call_named(e, ("splay",)) is not None and len(kids(e)) >= 3:
+            a = value(s, kids(e)[1])
+            same = match.same_expr(kids(e)[0], key) and match.same_expr(kids(e)[2], cmpx)
+            if a == "null":
+                return "null"
+            if same and a == "T0":
+                s.splayed = True
+                return "R"
+            if same and a == "R.left" and not s.dirty and ("R", "left") not in s.store:
+                return "S(R.left)"
+            return fresh(s)
+        if e["k"] == "CallExpr" and match.call_named(e, ("splay_insert",)) is not None and len(kids(e)) >= 2:
+            return "ins(%s,%s)" % (value(s, kids(e)[0]), value(s, kids(e)[1]))
+        if e["k"] == "MemberExpr" and e.get("member") in ("left", "right") and e.get("arrow") and kids(e):
+            b = value(s, kids(e)[0])
+            if b == "R":
+                if ("R", e["member"]) in s.store:
+                    return s.store[("R", e["member"])]
+                return fresh(s) if s.dirty else "R." + e["member"]
+            return fresh(s)
+        if e["k"] == "CallExpr" and "callee" in e and is_ptr(e) and match.functor_call(e) is None:
+            # a function that is handed nothing but subtrees of the old root (by value; no parent links, no global state in this
+            # file) returns a node below the old root or null - never the old root itself
+            vals = [value(s, a) for a in kids(e) if a is not None and is_ptr(strip_casts(a))]
+            for a in kids(e):
+                if a is not None and not is_ptr(strip_casts(a)):
+                    scan(s, a)
+            call_effects(s, e)
+            if vals and all(v in ("null", "R.left", "R.right", "S(R.left)") or v.startswith("below(") for v in vals):
+                s.dirty = True      # the links may have been rearranged
+                return "below(%s)" % e["callee"]["name"]
+            return fresh(s)
+        scan(s, e)
+        return fresh(s)
+
+    def process_expr(s, e):
+        e0 = strip_casts(e)
+        if e0 is None:
+            return
+        ta = tie_assign(e0)
+        if ta:
+            # std::tie(a, b, ...) = std::make_tuple(x, y, ...): the places are bound and all values are read before the first store
+            bases = []
+            for l in ta[0]:
+                l0 = strip_casts(l)
+                link = l0 is not None and l0["k"] == "MemberExpr" and l0.get("member") in ("left", "right") and l0.get("arrow") and kids(l0)
+                bases.append(value(s, kids(l0)[0]) if link else None)
+            vals = [value(s, r) for r in ta[1]]
+            for l, b, v in zip(ta[0], bases, vals):
+                clobber(s, l, v, b)
+        elif e0["k"] == "BinaryOperator" and e0.get("op") == "=":
+            value(s, e0)
+        else:
+            scan(s, e0)
+
+    def catch_up(s, run):
+        evs = run.events
+        while s.done < len(evs):
+            ev = evs[s.done]
+            s.done += 1
+            if ev[0] == "decl":
+                v = ev[1]
+                ty = (v.get("ty") or "").replace(" ", "")
+                if ty.endswith("*&") or ty.endswith("*const&") or ty.endswith("*&&"):
+                    und("a reference to a pointer (%s) is not followed" % v.get("name"))
+                init = kids(v)[0] if kids(v) else None
+                s.env[v["did"]] = value(s, init) if init is not None else fresh(s)
+            elif ev[0] == "expr":
+                process_expr(s, ev[1])
+            elif ev[0] == "loop":
+                scan(s, ev[1])
+            elif ev[0] == "label":
+                und("a label (line %s)" % fn.loc)
+
+    def stamp(s, n):
+        """the pointer values an opaque condition reads: the same text over other nodes is another condition"""
+        out = []
+        for z in ir.walk(n):
+            if is_root(z, fn) == rootname:
+                out.append(s.root)
+            elif z["k"] == "DeclRefExpr" and is_ptr(z) and z["ref"]["id"] in s.env:
+                out.append(s.env[z["ref"]["id"]])
+        return ",".join(out)
+
+    def same_cmp(f):
+        """the comparator the tree was splayed with, or a never-reassigned copy of it"""
+        if match.same_expr(f, cmpx):
+            return True
+        d = ref_of(f)
+        init = single_init(fn, d) if d is not None else None
+        return init is not None and match.same_expr(peel(init), cmpx)
+
+    def special(n, run):
+        s = st(run)
+        catch_up(s, run)
+        n0 = strip_casts(n)
+        e, neg = None, False
+        bb = match.binop(n0, ("==", "!="))
+        if bb:
+            for l, r in ((bb[1], bb[2]), (bb[2], bb[1])):
+                if is_null(r) and is_ptr(strip_casts(l)):
+                    e, neg = l, bb[0] == "!="
+                    break
+        pt = match.ptr_truth(n) or (match.ptr_truth(n0) if n0 is not n else None)
+        if e is None and pt is not None:
+            e, neg = pt, True
+        if e is not None:
+            # value of the atom: `the pointer is null`
+            v = value(s, e)
+            if v == "null":
+                return not neg
+            if v == "new" or v.startswith("ins("):
+                return neg
+            if v in ("T0", "R"):
+                return ("empty", neg)
+            if v in ("R.left", "R.right"):
+                return ("null:" + v, neg)
+            if v == "S(R.left)":
+                return ("null:R.left", neg)
+            return ("c:null(%s)" % v, neg)
+        fc = match.functor_call(n0)
+        if fc and len(fc[1]) == 2 and same_cmp(fc[0]):
+            def side(a):
+                if match.same_expr(a, key):
+                    return "K"
+                f = match.field_of(a)
+                if f and f[1] == "key" and strip_casts(a).get("arrow"):
+                    return value(s, f[0])
+                scan(s, a)
+                return None
+            sides = (side(fc[1][0]), side(fc[1][1]))
+            if sides == ("K", "R"):
+                return ("k<root", False)
+            if sides == ("R", "K"):
+                return ("root<k", False)
+            return ("c:%s[%s,%s]" % (dtable.describe(n0), sides[0], sides[1]), False)
+        return None
+
+    generic = opaque_atomize()
+
+    def atomize(n, run):
+        r = special(n, run)
+        if r is not None:
+            return r
+        r = generic(n, run)
+        if isinstance(r, tuple) and r[0].startswith("c:"):
+            n0 = strip_casts(n)
+            if n0 is not None and "callee" in n0 and n0["k"] in ("CallExpr", "CXXMemberCallExpr") and dtable.inline_call(fn, n0) is not None:
+                return None     # a predicate helper that reads like its returned expression: the table evaluates that expression
+            s = st(run)
+            scan(s, n)
+            return (r[0] + "@" + stamp(s, n), r[1])
+        return r
+
+    body = bool_ret_as_if(src) if bool_fn else ret_as_if(src, only=lambda e: False)
+    leaves = dtable.explore(body, atomize, fn)
+    for lf in leaves:
+        s = st(lf["run"])
+        catch_up(s, lf["run"])
+        stp = lf["stop"]
+        if stp[0] != "return" or not stp[1] or stp[1][0] is None:
+            und("a path of %s() ends without returning a value (%s)" % (fn.name, stp[0]))
+        if bool_fn:
+            c = const_int(stp[1][0])
+            if c is None:
+                und("the value returned at line %s is not understood" % stp[1][0].get("l"))
+            lf["ret"] = bool(c)
+        else:
+            lf["ret"] = value(s, stp[1][0])
+        lf["fs"] = s
+    if not any(lf["fs"].splayed for lf in leaves):
+        und("the splay() call is not on a path the evaluation follows")
+    return leaves
+
+
+def check_found(ck, fn, tag):
+    """SPLAY-FOUND: after root = splay(k, root, cmp) the root is the node with a key equivalent to k if there is one, else a
+    neighbour of k.  `k is in the tree` therefore is: the tree is not empty and neither cmp(k, root->key) nor cmp(root->key, k).
+      splay_erase   unlinks the root and returns it (for freeing) exactly in that row, returns null and keeps the root otherwise
+      exists        returns true exactly in that row
+      insert        (set) inserts nothing and returns false exactly in that row; (multiset) always inserts; returns whether it inserted
+    Decided as a decision table over {empty, cmp(k,root), cmp(root,k)} (consistent: not both comparisons true): the verdict is a
+    row of the table."""
+    def und(what):
+        raise dtable.Undecidable("%s: SPLAY-FOUND: %s" % (fn.loc, what))
+    if fn.record is None:
+        refs = [p for p in fn.params if p["ty"].replace(" ", "").endswith("*&")]
+        if len(refs) != 1:
+            und("the tree parameter of %s() is not understood" % fn.name)
+        rootname, kind = "param:" + refs[0]["name"], "erase"
+    else:
+        rootname, kind = "root_", fn.name
+    dup = None
+    if kind == "insert":
+        dup = {"true": True, "false": False, "1": True, "0": False}.get(fn.rtargs[2] if len(fn.rtargs) > 2 else None)
+        if dup is None:
+            und("the Duplicates argument of the tree is not understood")
+    leaves = found_table(fn, rootname, kind != "erase")
+    atoms = dtable.atoms_of(leaves)
+    for a in ("empty", "k<root", "root<k"):
+        if a not in atoms:
+            atoms.append(a)
+
+    def consistent(v):
+        if v["k<root"] and v["root<k"]:
+            return False
+        if v["empty"]:      # no root to compare with and no links: one row
+            return not any(b for a, b in v.items() if a != "empty" and not a.startswith("c:") and not a.startswith("flag:"))
+        return True
+
+    def row(v):
+        if v["empty"]:
+            return "empty tree"
+        return "cmp(k,root)=%s, cmp(root,k)=%s" % ("true" if v["k<root"] else "false", "true" if v["root<k"] else "false")
+
+    def outcome(lf):
+        """-> (taken as found?, inconsistency or None)"""
+        s, ret = lf["fs"], lf["ret"]
+        if kind == "exists":
+            return ret, None
+        if s.root.startswith("?"):
+            und("what %s holds at the end of the path %s is not understood" % (rootname.split(":")[-1], dtable.fmt_val(lf["val"]) or "-"))
+        kept = s.root == "R" or (s.root == "T0" and not s.splayed)
+        if s.root == "T0" and s.splayed:
+            und("the splay() result is not stored back on the path %s (see SPLAY-WRITEBACK)" % (dtable.fmt_val(lf["val"]) or "-"))
+        if kind == "erase":
+            if ret not in ("R", "null", "T0") or (ret == "T0" and s.splayed):
+                und("the value returned on the path %s is not understood" % (dtable.fmt_val(lf["val"]) or "-"))
+            if ret == "T0":
+                und("the old root is returned without a splay on the path %s" % (dtable.fmt_val(lf["val"]) or "-"))
+            if ret == "R" and kept:
+                return True, "the root is returned (to be freed) but stays linked in the tree"
+            if ret == "null" and not kept:
+                return False, "the root is unlinked but not returned: the node is lost"
+            return ret == "R", None
+        # insert
+        inserted = s.root.startswith("ins(")
+        if inserted and not s.root.startswith("ins(new,"):
+            und("the node linked by splay_insert is not a fresh node (%s)" % s.root)
+        if not inserted and not kept:
+            und("%s changes in a way that is not understood (%s)" % (rootname, s.root))
+        if ret != inserted:
+            return not inserted, "returns %s although %s" % ("true" if ret else "false", "a node was inserted" if inserted else "nothing was inserted")
+        return not inserted, None
+
+    bad = None
+    rows = 0
+    for v, lf in dtable.table(leaves, consistent, atoms):
+        if v["empty"] and ("k<root" in lf["val"] or "root<k" in lf["val"]):
+            continue        # the root's key is read although the tree is empty (or is never empty here): that is SPLAY-NULL's question
+        got, wrong = outcome(lf)
+        found = not v["empty"] and not v["k<root"] and not v["root<k"]
+        want = found and not dup if kind == "insert" else found
+        why = None
+        if wrong:
+            why = wrong
+        elif got and not want:
+            why = {"erase": "the root is removed although %s" % ("the tree is empty" if v["empty"] else "its key differs from k"),
+                   "exists": "returns true although %s" % ("the tree is empty" if v["empty"] else "the root's key differs from k"),
+                   "insert": "the key is not inserted although %s" % ("the tree is empty" if v["empty"] else "duplicates are allowed" if found
+                                                                        else "the root's key differs from k")}[kind]
+        elif want and not got:
+            why = {"erase": "the root holds a key equivalent to k but is not removed",
+                   "exists": "returns false although the root holds a key equivalent to k",
+                   "insert": "a key equivalent to the root's key is inserted again into a tree without duplicates"}[kind]
+        rows += 1
+        if why is None:
+            continue
+        opaque = [a for a in lf["val"] if a.startswith("c:") or a.startswith("flag:")]
+        if opaque:
+            und("in the row `%s` %s() %s, under a condition that is not understood (%s)" % (row(v), fn.name, why, opaque[0][2:]))
+        rest = {a: b for a, b in lf["val"].items() if a not in ("empty", "k<root", "root<k")}
+        bad = bad or (v, why + (" (where %s)" % dtable.fmt_val(rest) if rest else ""))
+    if bad is None:
+        ck.ok("SPLAY-FOUND", tag, {"erase": "the root is unlinked and returned exactly when neither cmp(k,root) nor cmp(root,k)",
+                                   "exists": "true exactly when the tree is not empty and neither cmp(k,root) nor cmp(root,k)",
+                                   "insert": "always inserts (duplicates allowed)" if dup else
+                                             "inserts unless the tree is not empty and neither cmp(k,root) nor cmp(root,k)"}[kind] + " (%d rows)" % rows)
+    else:
+        ck.violation("SPLAY-FOUND", fn.qname, "%s:found" % fn.name,
+                     "after splay(k) the key is in the tree exactly if the tree is not empty and neither cmp(k,root) nor cmp(root,k); row `%s`: %s"
+                     % (row(bad[0]), bad[1]), fn.loc)
 
 
 def check_splay(ck, tu):
@@ -2192,6 +2645,9 @@ def check_splay(ck, tu):
             ck.guarded(lambda: check_alloc_delete(ck, fn, tag))
         if fn.record == ST and fn.name == "erase" and fn.params and not fn.params[0]["ty"].endswith("*"):
             ck.guarded(lambda: check_alloc_erase(ck, fn, tag))
+        # ---- SPLAY-FOUND: the key-equality decision after a splay
+        if (fn.record is None and fn.name == "splay_erase") or (fn.record == ST and fn.name in ("exists", "insert")):
+            ck.guarded(lambda: check_found(ck, fn, tag))
         seen.add(key)
 
 
@@ -2797,8 +3253,12 @@ def run(ck):
         "handed to a list / index operation must not be read from an object that was moved from earlier on the path (decided on the code as written). "
         "SplayTree: the result of every splay() on a root must be stored back on all paths, must not be "
         "dereferenced where the tree may be null, deleting all nodes must null the owner, a child link may only be overwritten when saved or known "
-        "empty, allocation/deallocation pair with size_, and the search orientation is consistent (one round of the splay loop is evaluated on symbolic "
-        "nodes: every comparison and every step of the search position must lie on the side the comparison at the parent node allows). LRU order and BST order over histories are not decided.")
+        "empty, allocation/deallocation pair with size_ (erase(key) frees and reports `removed` exactly where splay_erase returned a node), the search "
+        "orientation is consistent (one round of the splay loop is evaluated on symbolic "
+        "nodes: every comparison and every step of the search position must lie on the side the comparison at the parent node allows), and the "
+        "key-equality decision after a splay is exact (SPLAY-FOUND: decision table over {tree empty, cmp(k,root), cmp(root,k)} with the pointer values "
+        "of the root followed symbolically: splay_erase unlinks and returns the root, exists returns true, a set's insert refuses, exactly in the row in "
+        "which the tree is not empty and neither comparison holds). LRU order and BST order over histories are not decided.")
     types = ["int"] if ck.tier == "quick" else ["int", "std::string"]
     for t in types:
         tu = ir.extract("witness/C17_lru_splay.cpp", defines=["WITNESS_K=" + t])
@@ -2832,3 +3292,4 @@ def run(ck):
     ck.floor("SPLAY-LINK", 10 * m)
     ck.floor("SPLAY-ORIENT", 2 * m)
     ck.floor("SPLAY-ALLOC-PAIR", 3 * m)
+    ck.floor("SPLAY-FOUND", 6 * m)
